@@ -71,7 +71,9 @@ for m, r in sorted(rows.items()):
 lines = []
 lines.append("## 10a. Sensitivity results: seeded changes and which checks catch them\n")
 lines.append("Every change below was written by a fresh sub-agent that was given only the text of one property and a scratch")
-lines.append("worktree (nothing from /verif). Each was confirmed here in a scratch worktree: it applies to /repo's HEAD, the")
+lines.append("worktree (nothing from /verif); the `w4` changes come from a fourth, module-centric wave whose agents were given the")
+lines.append("texts of all 20 properties and one source file each, and named the property their change breaks. Each change was")
+lines.append("confirmed here in a scratch worktree: it applies to /repo's HEAD, the")
 lines.append("existing 70 tests + 5 doctests pass with it, its demonstration fails with it and passes without it. The checks were")
 lines.append("then run (quick tier, default seed) against the patched worktree. `primary` = the check of the property the change")
 lines.append("was written against; `also` = other checks that report a violation too. Files: `seeded/<name>/`.\n")
